@@ -120,11 +120,12 @@ class PostgreSQLQueryBuilder(QueryBuilder):
         self._return_star = True
 
     def _return_field(self, term: str | Field) -> None:
+        # a field of a foreign table is rejected whether or not a star makes it redundant
+        self._validate_returning_term(term)  # type:ignore[arg-type]
+
         if self._return_star:
             # Do not add select terms after a star is selected
             return
-
-        self._validate_returning_term(term)  # type:ignore[arg-type]
 
         if isinstance(term, Star):
             self._set_returns_for_star()
